@@ -52,9 +52,12 @@ def run(ctx):
     c03.maps_rules(dep(ctx, "C12", "C03"), "C03")
     from . import c06
     c06.reader_deps(ctx, "C12")
+    from . import c15
+    c15.cli_arm_dep(ctx, "C12", ('Cgr',))
     # (x, y) is the chaos-game end point at the requested square size: corner table, centre and constructor of this copy
-    c11.table_rule(dep(ctx, "C12", "C11"), "C11.T", c11.MAPS[1])
-    c11.ctor_rule(dep(ctx, "C12", "C11"), "C11.C", "composition::oligocgr::OligoCgrComputer::new", ADT)
+    mp = c11.ctor_rule(dep(ctx, "C12", "C11"), "C11.C", "composition::oligocgr::OligoCgrComputer::new", ADT)
+    if mp is not None:
+        c11.table_rule(dep(ctx, "C12", "C11"), "C11.T", mp)
     fsn = ctx.need("C12.O", "composition::oligocgr::OligoCgrComputer::set_norm")
     if fsn is not None:
         ws = [n for n in fsn.nodes if n.get("k") in ("assign", "assignop")]
